@@ -135,6 +135,12 @@ func unpackFieldLength(byteOrder binary.ByteOrder, fieldLen int, buff []byte) (f
 }
 
 func packFieldLength(byteOrder binary.ByteOrder, fieldLen int, dataLen int64) []byte {
+	// the length must be representable in the length field, otherwise the
+	// header would silently disagree with the body.
+	utils.AssertIf(dataLen < 0, "negative length field: %d", dataLen)
+	utils.AssertIf(fieldLen < 8 && dataLen >= int64(1)<<(8*uint(fieldLen)),
+		"length %d does not fit in a %d-byte length field", dataLen, fieldLen)
+
 	lengthBuff := make([]byte, fieldLen)
 	switch fieldLen {
 	case 1:
